@@ -23,7 +23,7 @@ ASSUMPTIONS = [
     "valid category, freeing an MR dimension = selected or other on that item, an array item "
     "dimension is never freed",
 ]
-WEIGHTS = ["none", "frac", "zeros"]
+WEIGHTS = ["none", "frac", "zeros", "scales", "tiny"]
 INS = ["none", "sum", "diff"]
 REQUIRED_REACH = [
     "bases2d", "margins", "table_scalar", "ranges", "mask", "strand_bases",
